@@ -48,6 +48,13 @@ def entries(tier="quick"):
                     ("PiecewiseCubicCDF", nl.PiecewiseCubicCDF), ("PiecewiseRationalQuadraticCDF", nl.PiecewiseRationalQuadraticCDF)):
         add(nm + "[3]", lambda cls=cls: cls([3], num_bins=4), [3], dom="unit", kinks=True)
         add(nm + "[2,2,2] tails", lambda cls=cls: cls([2, 2, 2], num_bins=3, tails="linear", tail_bound=2.0), [2, 2, 2], kinks=True)
+    # non-default minimum bin sizes / derivative (every path through a spline must use the configured values)
+    add("PiecewiseRationalQuadraticCDF[3] tails, mins", lambda: nl.PiecewiseRationalQuadraticCDF(
+        [3], num_bins=4, tails="linear", tail_bound=2.0, min_bin_width=0.05, min_bin_height=0.02, min_derivative=0.1), [3], kinks=True)
+    add("PiecewiseQuadraticCDF[3] tails, mins", lambda: nl.PiecewiseQuadraticCDF(
+        [3], num_bins=4, tails="linear", tail_bound=2.0, min_bin_width=0.05, min_bin_height=0.02), [3], kinks=True)
+    add("PiecewiseCubicCDF[3] tails, mins", lambda: nl.PiecewiseCubicCDF(
+        [3], num_bins=4, tails="linear", tail_bound=2.0, min_bin_width=0.05, min_bin_height=0.02), [3], kinks=True)
     add("GatedLinearUnit(shared gate)", lambda: nl.GatedLinearUnit(), [3], ctx=[1])
     add("GatedLinearUnit(per-feature gate)", lambda: nl.GatedLinearUnit(), [3], ctx=[3])
     # ---- standard / permutations / reshape
@@ -87,6 +94,8 @@ def entries(tier="quick"):
         add(nm + " unit box", lambda cls=cls: cls(mask, mk2(), num_bins=3), [3], dom="unit", kinks=True)
     add("PiecewiseRQCoupling(image, uncond)", lambda: cp.PiecewiseRationalQuadraticCouplingTransform(
         mask, mk4(), num_bins=3, tails="linear", tail_bound=3.0, apply_unconditional_transform=True, img_shape=[2, 2]), [3, 2, 2], kinks=True)
+    add("PiecewiseRQCoupling tails, mins", lambda: cp.PiecewiseRationalQuadraticCouplingTransform(
+        mask, mk2(), num_bins=3, tails="linear", tail_bound=2.0, min_bin_width=0.05, min_bin_height=0.02, min_derivative=0.1), [3], kinks=True)
     add("UMNNCoupling", lambda: cp.UMNNCouplingTransform(mask, mk2(), integrand_net_layers=[8, 8], cond_size=4, nb_steps=30), [3], umnn=True)
     # ---- masked autoregressive
     add("MaskedAffineAR", lambda: ar.MaskedAffineAutoregressiveTransform(3, 8, num_blocks=1), [3])
@@ -95,6 +104,8 @@ def entries(tier="quick"):
     add("MaskedPiecewiseQuadraticAR tails", lambda: ar.MaskedPiecewiseQuadraticAutoregressiveTransform(3, 8, num_bins=3, tails="linear", tail_bound=3.0, num_blocks=1), [3], kinks=True)
     add("MaskedPiecewiseCubicAR", lambda: ar.MaskedPiecewiseCubicAutoregressiveTransform(3, 3, 8, num_blocks=1), [3], dom="unit", kinks=True)
     add("MaskedPiecewiseRQAR tails", lambda: ar.MaskedPiecewiseRationalQuadraticAutoregressiveTransform(3, 8, num_bins=3, tails="linear", tail_bound=3.0, num_blocks=1), [3], kinks=True)
+    add("MaskedPiecewiseRQAR tails, mins", lambda: ar.MaskedPiecewiseRationalQuadraticAutoregressiveTransform(
+        3, 8, num_bins=3, tails="linear", tail_bound=2.0, num_blocks=1, min_bin_width=0.05, min_bin_height=0.02, min_derivative=0.1), [3], kinks=True)
     add("MaskedUMNNAR", lambda: ar.MaskedUMNNAutoregressiveTransform(3, 8, num_blocks=1, integrand_net_layers=[8, 8], cond_size=4, nb_steps=30), [3], umnn=True)
     # ---- wrappers
     add("Composite(LU,Tanh,Inverse(Tanh),Exp)", lambda: base.CompositeTransform([lu.LULinear(3, identity_init=False), nl.Tanh(), base.InverseTransform(nl.Tanh()), nl.Exp()]), [3])
